@@ -24,6 +24,8 @@ import (
 	"os"
 	"regexp"
 	"runtime"
+	"runtime/debug"
+	"runtime/pprof"
 	"sort"
 	"strconv"
 	"strings"
@@ -44,9 +46,9 @@ import (
 // Config is everything of a case except the server's answers.
 type Config struct {
 	Method  string `json:"method"`
-	Body    string `json:"body"` // none bytes.Reader strings.Reader bytes.Buffer os.File os.File@1 readseeker io.Reader
+	Body    string `json:"body"` // none | <kind>[@<off>]: bytes.Reader strings.Reader bytes.Buffer io.Reader readseeker section os.File file-noclose rsc (see makeBody)
 	Size    int    `json:"size"`
-	Conn    string `json:"conn"`    // fresh (keep-alive disabled) | keepalive | warm (keep-alive, idle connection already pooled)
+	Conn    string `json:"conn"`    // fresh (keep-alive disabled) | keepalive | warm (keep-alive, idle connection already pooled) | model (scripted in-process RoundTripper, see modelRT)
 	Retries int    `json:"retries"` // -1: no SendRetry option at all; n>=0: SendRetry with a zero back-off that stops after n retries
 	Variant string `json:"variant"` // default | accept503 | extra400
 }
@@ -89,6 +91,7 @@ type Attempt struct {
 	BodyOK    bool        `json:"body_complete"` // body (or the prefix the server chose to read) equals the original
 	ReadErr   string      `json:"read_err,omitempty"`
 	WantedLen int         `json:"wanted_len"` // how many body bytes the server tried to read (-1: all)
+	Stale     string      `json:"stale_writer,omitempty"` // model transport: what the previous attempt's write loop did to ITS body between that attempt's return and the end of this one
 }
 
 // RoundTrip is one attempt as made by Send (one client.Do).
@@ -125,6 +128,7 @@ type caseState struct {
 	dialed      []string // local addresses of the connections the client opened
 	stopped     atomic.Bool
 	rtAfterStop atomic.Bool
+	onBackoff   func() // model transport: scheduling point "Send asked the backoff" (before Send prepares the retry)
 }
 
 type connInfo struct {
@@ -348,6 +352,9 @@ type recBackoff struct {
 }
 
 func (b *recBackoff) NextBackOff() time.Duration {
+	if b.cs.onBackoff != nil {
+		b.cs.onBackoff()
+	}
 	d := b.inner.NextBackOff()
 	if d == backoff.Stop {
 		b.out = append(b.out, -1)
@@ -381,6 +388,136 @@ type readSeeker struct{ r *bytes.Reader }
 func (o readSeeker) Read(p []byte) (int, error)            { return o.r.Read(p) }
 func (o readSeeker) Seek(off int64, wh int) (int64, error) { return o.r.Seek(off, wh) }
 
+// sendOptions builds the recording BackOff and the options of the Send call of a case.
+func sendOptions(cfg Config, cs *caseState, rt http.RoundTripper, body io.Reader) (*recBackoff, []httputil.SendOption) {
+	var inner backoff.BackOff
+	switch {
+	case cfg.Retries <= 0:
+		inner = &stopAfter{n: 0}
+	case cfg.Retries%2 == 1:
+		inner = backoff.WithMaxRetries(&backoff.ZeroBackOff{}, uint64(cfg.Retries)) // the construction kraken itself uses
+	default:
+		inner = &stopAfter{n: cfg.Retries}
+	}
+	bo := &recBackoff{inner: inner, cs: cs}
+	timeout := 30 * time.Second
+	if cfg.Conn == "model" {
+		// Nothing can block in the model transport. Without a client timeout net/http starts no
+		// timer goroutine per attempt (Send never closes the body of a retried response, so with a
+		// timeout each retried attempt would pin a goroutine and a timer until the timeout).
+		timeout = 0
+	}
+	opts := []httputil.SendOption{httputil.SendTransport(rt), httputil.SendHeaders(caseHeaders), httputil.SendTimeout(timeout)}
+	if body != nil {
+		opts = append(opts, httputil.SendBody(body))
+	}
+	if cfg.Variant == "accept503" {
+		opts = append(opts, httputil.SendAcceptedCodes(200, 503))
+	}
+	if cfg.Retries >= 0 {
+		ro := []httputil.RetryOption{httputil.RetryBackoff(bo)}
+		if cfg.Variant == "extra400" {
+			ro = append(ro, httputil.RetryCodes(400))
+		}
+		opts = append(opts, httputil.SendRetry(ro...))
+	}
+	return bo, opts
+}
+
+// rsc is a seekable body with a Close that does not invalidate the reader
+// (a pooled / caller-owned buffer).
+type rsc struct{ r *bytes.Reader }
+
+func (o rsc) Read(p []byte) (int, error)            { return o.r.Read(p) }
+func (o rsc) Seek(off int64, wh int) (int64, error) { return o.r.Seek(off, wh) }
+func (o rsc) Close() error                          { return nil }
+
+// getBodyKind: http.NewRequest snapshots these and provides GetBody.
+func getBodyKind(kind string) bool {
+	switch baseKind(kind) {
+	case "bytes.Reader", "strings.Reader", "bytes.Buffer":
+		return true
+	}
+	return false
+}
+
+func baseKind(kind string) string {
+	if i := strings.IndexByte(kind, '@'); i >= 0 {
+		return kind[:i]
+	}
+	return kind
+}
+
+func kindOffset(kind string) int {
+	if i := strings.IndexByte(kind, '@'); i >= 0 {
+		n, _ := strconv.Atoi(kind[i+1:])
+		return n
+	}
+	return 0
+}
+
+// makeBody builds the reader handed to SendBody. "<kind>@<off>": the
+// underlying data is <off> filler bytes followed by the original body and the
+// reader is handed over positioned after the filler (the caller consumed a
+// header first), so the original body -- what the reader yields from the moment
+// Send is called -- is the same for every kind and offset.
+//
+//	bytes.Reader strings.Reader bytes.Buffer  net/http snapshots them (ContentLength + GetBody)
+//	io.Reader     Read only
+//	readseeker    Read + Seek, no Close
+//	section       *io.SectionReader whose section starts at offset 1 of its underlying ReaderAt (Read + Seek + ReadAt, no Close)
+//	os.File       *os.File (Read + Seek + Close; closed => every later call fails)
+//	file-noclose  struct{ io.ReadSeeker }{*os.File}: the caller keeps ownership of the file
+//	rsc           Read + Seek + Close where Close leaves the reader usable
+func (w *worker) makeBody(kind string, orig []byte) (io.Reader, func(), error) {
+	if kind == "none" {
+		return nil, nil, nil
+	}
+	off := kindOffset(kind)
+	data := append(bytes.Repeat([]byte("#"), off), orig...)
+	var body io.Reader
+	var cleanup func()
+	switch baseKind(kind) {
+	case "bytes.Reader":
+		body = bytes.NewReader(data)
+	case "strings.Reader":
+		body = strings.NewReader(string(data))
+	case "bytes.Buffer":
+		body = bytes.NewBuffer(data)
+	case "io.Reader":
+		body = onlyReader{bytes.NewReader(data)}
+	case "readseeker":
+		body = readSeeker{bytes.NewReader(data)}
+	case "rsc":
+		body = rsc{bytes.NewReader(data)}
+	case "section":
+		padded := append(append([]byte("^"), data...), '$')
+		body = io.NewSectionReader(bytes.NewReader(padded), 1, int64(len(data)))
+	case "os.File", "file-noclose":
+		p := fmt.Sprintf("%s/body-%d", w.dir, w.seq)
+		if err := os.WriteFile(p, data, 0o600); err != nil {
+			return nil, nil, err
+		}
+		f, err := os.Open(p)
+		if err != nil {
+			return nil, nil, err
+		}
+		body = f
+		if baseKind(kind) == "file-noclose" {
+			body = struct{ io.ReadSeeker }{f}
+		}
+		cleanup = func() { f.Close(); os.Remove(p) }
+	default:
+		return nil, nil, fmt.Errorf("unknown body kind %q", kind)
+	}
+	if off > 0 {
+		if _, err := io.ReadFull(body, make([]byte, off)); err != nil {
+			return nil, nil, fmt.Errorf("positioning %s: %v", kind, err)
+		}
+	}
+	return body, cleanup, nil
+}
+
 func content(n int) []byte {
 	b := make([]byte, n)
 	for i := range b {
@@ -395,47 +532,19 @@ const query = "?q=1&x=a%20b"
 
 // exec runs one execution of the real Send against the scripted server.
 func (w *worker) exec(c Case) (*Obs, error) {
+	if c.Config.Conn == "model" {
+		return w.execModel(c)
+	}
 	w.seq++
 	cfg := c.Config
 	orig := content(cfg.Size) // what the body reader yields when Send is called
 	cs := &caseState{path: fmt.Sprintf("/c34/%d/res", w.seq), script: c.Script, content: orig}
-	var body io.Reader
-	var cleanup func()
-	switch cfg.Body {
-	case "none":
+	if cfg.Body == "none" {
 		cs.content = nil
-	case "bytes.Reader":
-		body = bytes.NewReader(orig)
-	case "strings.Reader":
-		body = strings.NewReader(string(orig))
-	case "bytes.Buffer":
-		body = bytes.NewBuffer(append([]byte(nil), orig...))
-	case "io.Reader":
-		body = onlyReader{bytes.NewReader(orig)}
-	case "readseeker":
-		body = readSeeker{bytes.NewReader(orig)}
-	case "os.File", "os.File@1":
-		p := fmt.Sprintf("%s/body-%d", w.dir, w.seq)
-		data := orig
-		if cfg.Body == "os.File@1" {
-			data = append([]byte("#"), orig...) // the reader is handed over positioned after the first byte
-		}
-		if err := os.WriteFile(p, data, 0o600); err != nil {
-			return nil, err
-		}
-		f, err := os.Open(p)
-		if err != nil {
-			return nil, err
-		}
-		if cfg.Body == "os.File@1" {
-			if _, err := f.Seek(1, io.SeekStart); err != nil {
-				return nil, err
-			}
-		}
-		body = f
-		cleanup = func() { f.Close(); os.Remove(p) }
-	default:
-		return nil, fmt.Errorf("unknown body kind %q", cfg.Body)
+	}
+	body, cleanup, err := w.makeBody(cfg.Body, orig)
+	if err != nil {
+		return nil, err
 	}
 	w.cmu.Lock()
 	w.conns = map[net.Conn]*connInfo{} // every connection of earlier cases is finished (see the end of exec)
@@ -465,30 +574,7 @@ func (w *worker) exec(c Case) (*Obs, error) {
 		resp.Body.Close()
 	}
 	rt := &recRT{inner: tr, cs: cs}
-	var inner backoff.BackOff
-	switch {
-	case cfg.Retries <= 0:
-		inner = &stopAfter{n: 0}
-	case cfg.Retries%2 == 1:
-		inner = backoff.WithMaxRetries(&backoff.ZeroBackOff{}, uint64(cfg.Retries)) // the construction kraken itself uses
-	default:
-		inner = &stopAfter{n: cfg.Retries}
-	}
-	bo := &recBackoff{inner: inner, cs: cs}
-	opts := []httputil.SendOption{httputil.SendTransport(rt), httputil.SendHeaders(caseHeaders), httputil.SendTimeout(30 * time.Second)}
-	if body != nil {
-		opts = append(opts, httputil.SendBody(body))
-	}
-	if cfg.Variant == "accept503" {
-		opts = append(opts, httputil.SendAcceptedCodes(200, 503))
-	}
-	if cfg.Retries >= 0 {
-		ro := []httputil.RetryOption{httputil.RetryBackoff(bo)}
-		if cfg.Variant == "extra400" {
-			ro = append(ro, httputil.RetryCodes(400))
-		}
-		opts = append(opts, httputil.SendRetry(ro...))
-	}
+	bo, opts := sendOptions(cfg, cs, rt, body)
 	resp, err := httputil.Send(cfg.Method, w.srv.URL+cs.path+query, opts...)
 	o := &Obs{}
 	if err != nil {
@@ -544,18 +630,237 @@ func (w *worker) exec(c Case) (*Obs, error) {
 }
 
 // ---------------------------------------------------------------------------
+// model transport: a scripted in-process http.RoundTripper
+//
+// The RoundTripper contract lets an implementation keep (read and eventually
+// close) the request body after RoundTrip has returned: "RoundTrip must always
+// close the body, including on errors, but depending on the implementation may
+// do so in a separate goroutine even after RoundTrip returns". net/http's own
+// Transport does exactly that whenever the answer (or the failure) arrives
+// before its write loop is done with the body. With the real Transport that
+// interleaving is a race; here it is an enumerated environment answer.
+//
+// Answer symbols:
+//   "<code>" / "E"         read the body to EOF, close it, answer <code> / fail with a network error
+//   "<code>@k+j<p>" / "E@k+j<p>"
+//                          answer (fail) when only k body bytes have been read; the body stays with the
+//                          "write loop" of this attempt, which reads j more bytes (j = * : up to EOF) and
+//                          then closes it at point <p>:
+//                            B  when Send asks the backoff (before Send prepares the retry)
+//                            R  when the next RoundTrip starts (after Send prepared the retry)
+//                            M  after the next attempt has read the first byte of its body
+//                          (never, if Send makes no further attempt: closed at teardown)
+// beyond the script the transport answers "200" and marks the run as overrun.
+
+type staleWriter struct {
+	body io.ReadCloser
+	j    int // -1: up to EOF
+	p    byte
+}
+
+type modelRT struct {
+	cs      *caseState
+	host    string
+	pending *staleWriter
+	note    string // stale-writer actions since the previous attempt returned
+}
+
+var reModelSym = regexp.MustCompile(`^(E|[0-9]{3})(?:@([0-9]+)\+([0-9]+|\*)([BRM]))?$`)
+
+func (m *modelRT) runStale(at byte) {
+	s := m.pending
+	if s == nil || s.p != at {
+		return
+	}
+	m.pending = nil
+	n := 0
+	if s.j < 0 {
+		b, _ := io.ReadAll(s.body)
+		n = len(b)
+	} else if s.j > 0 {
+		n, _ = io.ReadFull(s.body, make([]byte, s.j))
+	}
+	s.body.Close()
+	m.note += fmt.Sprintf("%c: read %d more bytes, closed; ", at, n)
+}
+
+func (m *modelRT) finish() {
+	if m.pending != nil {
+		m.pending.body.Close()
+		m.pending = nil
+	}
+}
+
+func (m *modelRT) RoundTrip(req *http.Request) (*http.Response, error) {
+	cs := m.cs
+	idx := len(cs.attempts)
+	sym := "200"
+	if idx < len(cs.script) {
+		sym = cs.script[idx]
+	} else {
+		cs.overrun = true
+	}
+	g := reModelSym.FindStringSubmatch(sym)
+	if g == nil {
+		panic("bad model transport symbol " + sym)
+	}
+	a := &Attempt{Sym: sym, Method: req.Method, URI: req.URL.RequestURI(), Header: req.Header.Clone(), CL: req.ContentLength, WantedLen: -1}
+	a.HostOK = req.URL.Scheme == "http" && req.URL.Host == m.host && (req.Host == "" || req.Host == m.host)
+	cs.attempts = append(cs.attempts, a)
+	if m.pending != nil && m.pending.p == 'B' {
+		m.pending.p = 'R' // Send did not ask the backoff before this attempt: the next point is this one
+	}
+	m.runStale('R')
+	var got []byte
+	var rerr error
+	readN := func(n int) {
+		if n <= 0 || rerr != nil {
+			return
+		}
+		buf := make([]byte, n)
+		k, err := io.ReadFull(req.Body, buf)
+		got = append(got, buf[:k]...)
+		rerr = err
+	}
+	early := g[2] != ""
+	if req.Body != nil {
+		if early {
+			k, _ := strconv.Atoi(g[2])
+			a.WantedLen = k
+			if m.pending != nil && k > 0 {
+				readN(1)
+				m.runStale('M')
+				readN(k - 1)
+			} else {
+				m.runStale('M')
+				readN(k)
+			}
+		} else {
+			if m.pending != nil {
+				readN(1)
+				if rerr == io.EOF {
+					rerr = nil // empty body
+				}
+				m.runStale('M')
+			}
+			if rerr == nil {
+				var rest []byte
+				rest, rerr = io.ReadAll(req.Body)
+				got = append(got, rest...)
+			}
+		}
+	} else {
+		m.runStale('M')
+	}
+	a.Stale, m.note = m.note, ""
+	a.BodyLen = len(got)
+	h := sha256.Sum256(got)
+	a.BodySHA = hex.EncodeToString(h[:6])
+	if a.WantedLen >= 0 {
+		a.BodyOK = rerr == nil && a.WantedLen <= len(cs.content) && bytes.Equal(got, cs.content[:a.WantedLen])
+	} else {
+		a.BodyOK = rerr == nil && bytes.Equal(got, cs.content)
+	}
+	if i := cs.rt.Load(); i >= 0 && int(i) < len(cs.wire) {
+		cs.wire[i].Add(int64(1 + len(got))) // the request line always leaves
+	}
+	if rerr != nil {
+		// the body reader failed: the request cannot be completed (what net/http does, too)
+		a.ReadErr = normErr(rerr.Error())
+		req.Body.Close()
+		return nil, fmt.Errorf("model transport: reading the request body: %v", rerr)
+	}
+	if req.Body != nil {
+		if early {
+			j := -1
+			if g[3] != "*" {
+				j, _ = strconv.Atoi(g[3])
+			}
+			m.pending = &staleWriter{body: req.Body, j: j, p: g[4][0]}
+		} else {
+			req.Body.Close()
+		}
+	}
+	if g[1] == "E" {
+		return nil, errors.New("model transport: connection reset by peer")
+	}
+	code, _ := strconv.Atoi(g[1])
+	return &http.Response{StatusCode: code, Status: fmt.Sprintf("%d %s", code, http.StatusText(code)), Proto: "HTTP/1.1", ProtoMajor: 1, ProtoMinor: 1,
+		Header: http.Header{}, Body: http.NoBody, Request: req}, nil
+}
+
+// execModel runs one execution of the real Send over the real http.Client with the model transport.
+func (w *worker) execModel(c Case) (*Obs, error) {
+	w.seq++
+	cfg := c.Config
+	orig := content(cfg.Size)
+	cs := &caseState{path: fmt.Sprintf("/c34/%d/res", w.seq), script: c.Script, content: orig}
+	if cfg.Body == "none" {
+		cs.content = nil
+	}
+	body, cleanup, err := w.makeBody(cfg.Body, orig)
+	if err != nil {
+		return nil, err
+	}
+	cs.rt.Store(-1)
+	m := &modelRT{cs: cs, host: "model.invalid:8080"}
+	cs.onBackoff = func() { m.runStale('B') }
+	rt := &recRT{inner: m, cs: cs}
+	bo, opts := sendOptions(cfg, cs, rt, body)
+	resp, err := httputil.Send(cfg.Method, "http://"+m.host+cs.path+query, opts...)
+	o := &Obs{}
+	if err != nil {
+		o.SendErr = normErr(err.Error())
+		if strings.Contains(err.Error(), "Client.Timeout") || strings.Contains(err.Error(), "deadline exceeded") {
+			return nil, fmt.Errorf("%v script %v: client timeout: %v", cfg, c.Script, err)
+		}
+	} else {
+		o.SendStatus = resp.StatusCode
+		resp.Body.Close()
+	}
+	m.finish()
+	if cleanup != nil {
+		cleanup()
+	}
+	o.Attempts = cs.attempts
+	o.Overrun = cs.overrun
+	o.RoundTrips = rt.rts
+	for i := range o.RoundTrips {
+		if i < len(cs.wire) {
+			o.RoundTrips[i].Wire = cs.wire[i].Load()
+		}
+	}
+	o.Backoff = bo.out
+	o.RTAfterStop = cs.rtAfterStop.Load()
+	return o, nil
+}
+
+// ---------------------------------------------------------------------------
 // oracle
 
 type vio struct{ fp, msg string }
 
 func bodyClass(cfg Config) string {
-	switch cfg.Body {
-	case "bytes.Reader", "strings.Reader", "bytes.Buffer":
-		return "body with net/http GetBody"
-	case "none":
+	cl := "body without GetBody"
+	switch {
+	case cfg.Body == "none":
 		return "no body"
+	case getBodyKind(cfg.Body):
+		cl = "body with net/http GetBody"
 	}
-	return "body without GetBody"
+	if kindOffset(cfg.Body) > 0 {
+		cl += ", handed over at offset>0"
+	}
+	return cl
+}
+
+// staleSuffix marks failures of an attempt during (or just before) which the
+// transport was still working on the previous attempt's body.
+func staleSuffix(a *Attempt) string {
+	if a.Stale != "" {
+		return " (transport still held the previous attempt's body)"
+	}
+	return ""
 }
 
 func headersEqual(a, b http.Header) bool {
@@ -618,8 +923,8 @@ func check(c Case, o *Obs) []vio {
 			if i > 0 {
 				which = "re-sent request"
 			}
-			add(fmt.Sprintf("%s reached the server with an incomplete body [%s]", which, bodyClass(cfg)),
-				"request %d: server read %d body bytes (sha %s, err %q), original body has %d", i, a.BodyLen, a.BodySHA, a.ReadErr, len(content(cfg.Size)))
+			add(fmt.Sprintf("%s reached the server with an incomplete body [%s]%s", which, bodyClass(cfg), staleSuffix(a)),
+				"request %d: server read %d body bytes (sha %s, err %q), original body has %d; stale writer: %q", i, a.BodyLen, a.BodySHA, a.ReadErr, len(content(cfg.Size)), a.Stale)
 		}
 	}
 	// an attempt of Send (RoundTrip) during which the server received no request at all carried nothing
@@ -638,13 +943,13 @@ func check(c Case, o *Obs) []vio {
 		if len(o.Attempts) == 0 {
 			add("Send reports success but the server received no request", "status %d", o.SendStatus)
 		} else if last := o.Attempts[len(o.Attempts)-1]; !last.BodyOK || last.WantedLen >= 0 {
-			add(fmt.Sprintf("Send reports success for an attempt whose body was not sent in full [%s]", bodyClass(cfg)),
+			add(fmt.Sprintf("Send reports success for an attempt whose body was not sent in full [%s]%s", bodyClass(cfg), staleSuffix(last)),
 				"Send returned status %d, nil error; the answered attempt carried %d body bytes (sha %s), original body has %d", o.SendStatus, last.BodyLen, last.BodySHA, len(content(cfg.Size)))
 		}
 	}
 	// clause 3: accepted status codes are never retried
 	for i, a := range o.Attempts {
-		if strings.HasPrefix(a.Sym, "X") || a.ReadErr != "" {
+		if strings.HasPrefix(a.Sym, "X") || strings.HasPrefix(a.Sym, "E") || a.ReadErr != "" {
 			continue
 		}
 		code, _ := strconv.Atoi(a.Sym[:3])
@@ -690,6 +995,56 @@ func alphabet(cfg Config, rich bool) []string {
 	return append(al, "429e", "503e", "503b", "400e", "200e", "200b", "404e")
 }
 
+// modelAlphabet: the answers of the model transport.
+//
+//	level 0: early answers at k=1, j in {1,*}, p in {R,M}                      (4+8 symbols)
+//	level 1: early answers at k in {0,1,N}, j in {1,*}, p in {R,M}            (4+24 symbols for N=3)
+//	level 2: early answers at k in {0,1,N}, j in {0,1,*}, p in {B,R,M}        (4+54)
+//	level 3: early answers at every k in 0..N, j in {0,1,*}, p in {B,R,M}, four more status codes (8+72 for N=3)
+func modelAlphabet(cfg Config, level int) []string {
+	al := []string{"200", "404", "503", "E"}
+	if level >= 3 {
+		al = append(al, "429", "502", "504", "500")
+	}
+	if cfg.Body == "none" || (cfg.Size == 0 && getBodyKind(cfg.Body)) {
+		return al // the request has no body reader (nil / http.NoBody): nothing a write loop could hold on to
+	}
+	n := cfg.Size
+	ks := []int{0, 1, n}
+	js := []string{"0", "1", "*"}
+	ps := []string{"B", "R", "M"}
+	if level <= 1 {
+		js, ps = []string{"1", "*"}, []string{"R", "M"}
+	}
+	if level == 0 {
+		ks = []int{1}
+	}
+	if level >= 3 {
+		ks = nil
+		for k := 0; k <= n; k++ {
+			ks = append(ks, k)
+		}
+	}
+	seen := map[int]bool{}
+	for _, out := range []string{"503", "E"} {
+		for k := range seen {
+			delete(seen, k)
+		}
+		for _, k := range ks {
+			if k > n || seen[k] {
+				continue
+			}
+			seen[k] = true
+			for _, j := range js {
+				for _, p := range ps {
+					al = append(al, fmt.Sprintf("%s@%d+%s%s", out, k, j, p))
+				}
+			}
+		}
+	}
+	return al
+}
+
 type stats struct {
 	mu       sync.Mutex
 	counters map[string]int64
@@ -705,8 +1060,15 @@ func (s *stats) add(k string, d int64) {
 const depthSlack = 3 // server-side requests may exceed Send's attempts (net/http replays idempotent requests on a dead pooled connection)
 
 // explore enumerates the answer tree of one config depth-first.
-func (w *worker) explore(run *evid.Run, st *stats, cfg Config, rich bool, deadline time.Time) error {
+func (w *worker) explore(run *evid.Run, st *stats, it item, deadline time.Time) error {
+	cfg, rich := it.cfg, it.rich
 	al := alphabet(cfg, rich)
+	model := cfg.Conn == "model"
+	execKey := fmt.Sprintf("executions retries=%d rich_alphabet=%v", cfg.Retries, rich)
+	if model {
+		al = modelAlphabet(cfg, it.level)
+		execKey = fmt.Sprintf("model_executions retries=%d alphabet_level=%d", cfg.Retries, it.level)
+	}
 	maxRT := 1
 	if cfg.Retries > 0 {
 		maxRT = 1 + cfg.Retries
@@ -718,7 +1080,7 @@ func (w *worker) explore(run *evid.Run, st *stats, cfg Config, rich bool, deadli
 			return nil
 		}
 		c := Case{Config: cfg, Script: append([]string(nil), prefix...)}
-		st.add(fmt.Sprintf("executions retries=%d rich_alphabet=%v", cfg.Retries, rich), 1)
+		st.add(execKey, 1)
 		var o *Obs
 		for try := 0; ; try++ {
 			var err error
@@ -728,6 +1090,9 @@ func (w *worker) explore(run *evid.Run, st *stats, cfg Config, rich bool, deadli
 			run.Eval(1)
 			if len(o.Attempts) >= len(prefix) {
 				break
+			}
+			if model {
+				return fmt.Errorf("%v script %v: the model transport run is not deterministic (parent asked for %d answers, this run for %d)", cfg, prefix, len(prefix), len(o.Attempts))
 			}
 			// The parent script made Send ask for this answer, this run did not:
 			// net/http only reuses a pooled connection when its write loop
@@ -770,6 +1135,10 @@ func (w *worker) explore(run *evid.Run, st *stats, cfg Config, rich bool, deadli
 		report(run, st, c, o, check(c, o))
 		return nil
 	}
+	if it.first != "" {
+		// one subtree of a big tree (the root execution, an interior node, belongs to no piece)
+		return rec([]string{it.first})
+	}
 	return rec(nil)
 }
 
@@ -799,6 +1168,26 @@ func report(run *evid.Run, st *stats, c Case, o *Obs, vs []vio) {
 	}
 	if o.SendErr == "" {
 		st.add("cases_send_ok", 1)
+	}
+	if c.Config.Conn == "model" {
+		st.add("model_complete_cases", 1)
+		held, heldFull := false, false
+		for _, a := range o.Attempts {
+			if a.Stale != "" {
+				held = true
+				if a.BodyOK && a.WantedLen < 0 && c.Config.Size > 0 {
+					heldFull = true
+				}
+			}
+		}
+		if held {
+			st.add("model_cases_retry_while_transport_held_previous_body", 1)
+		}
+		if heldFull {
+			st.add("model_cases_complete_nonempty_retry_while_transport_held_previous_body", 1)
+		}
+	} else if retried && kindOffset(c.Config.Body) > 0 {
+		st.add("cases_with_retry_body_handed_over_at_offset", 1)
 	}
 	if retried {
 		run.Sample(map[string]interface{}{"case": c, "observed": summarize(o)})
@@ -883,8 +1272,10 @@ func summarize(o *Obs) string {
 
 // item is one configuration plus the alphabet richness used for its tree.
 type item struct {
-	cfg  Config
-	rich bool
+	cfg   Config
+	rich  bool
+	level int    // model transport: alphabet level
+	first string // model transport: explore only the subtree below this first answer
 }
 
 type bs struct {
@@ -893,6 +1284,11 @@ type bs struct {
 }
 
 var variants = []string{"default", "accept503", "extra400"}
+
+// seekKinds: bodies without GetBody beyond the plain ones (seekable, with / without a
+// Close, handed over at offset 0 or 1); offsetGetBodyKinds: snapshotted readers handed over at offset 1.
+var seekKinds = []string{"readseeker@1", "section", "section@1", "os.File@1", "file-noclose", "file-noclose@1", "rsc", "rsc@1", "io.Reader@1"}
+var offsetGetBodyKinds = []string{"bytes.Reader@1", "strings.Reader@1", "bytes.Buffer@1"}
 
 func product(out *[]item, rich bool, methods map[string][]bs, conns []string, retries []int, vars []string) {
 	var ms []string
@@ -908,10 +1304,29 @@ func product(out *[]item, rich bool, methods map[string][]bs, conns []string, re
 						if r < 0 && v == "extra400" {
 							continue // extra retry codes only exist inside SendRetry
 						}
-						*out = append(*out, item{Config{Method: m, Body: b.kind, Size: b.size, Conn: cn, Retries: r, Variant: v}, rich})
+						*out = append(*out, item{cfg: Config{Method: m, Body: b.kind, Size: b.size, Conn: cn, Retries: r, Variant: v}, rich: rich})
 					}
 				}
 			}
+		}
+	}
+}
+
+// modelProduct: full product for the model-transport part; trees of configurations
+// with split=true are cut into one work item per first answer.
+func modelProduct(out *[]item, level int, split bool, methods map[string][]bs, retries []int) {
+	var tmp []item
+	product(&tmp, level >= 3, methods, []string{"model"}, retries, []string{"default"})
+	for _, it := range tmp {
+		it.level = level
+		if !split {
+			*out = append(*out, it)
+			continue
+		}
+		for _, sym := range modelAlphabet(it.cfg, level) {
+			p := it
+			p.first = sym
+			*out = append(*out, p)
 		}
 	}
 }
@@ -944,14 +1359,26 @@ func configs(thorough bool) []item {
 		}
 		product(&out, false, deep, []string{"fresh", "keepalive"}, []int{2}, []string{"default"})
 		product(&out, false, map[string][]bs{"POST": {{"bytes.Reader", 3}, {"io.Reader", 3}}}, []string{"fresh"}, []int{2}, []string{"accept503", "extra400"})
+		// readers without GetBody that can seek / have no Close / are handed over at an offset, and snapshotted readers at an offset
+		more := map[string][]bs{"POST": append(bodiesOf(seekKinds, []int{0, 3})[1:], bodiesOf(offsetGetBodyKinds, []int{3})[1:]...)}
+		product(&out, false, more, []string{"fresh", "keepalive"}, []int{-1, 0, 1}, variants)
+		product(&out, false, map[string][]bs{"POST": {{"readseeker@1", 3}, {"section@1", 3}, {"file-noclose@1", 3}, {"bytes.Buffer@1", 3}}}, []string{"fresh", "keepalive"}, []int{2}, []string{"default"})
+		// model transport
+		mk := append(append(append([]string{}, kinds...), seekKinds...), offsetGetBodyKinds...)
+		modelProduct(&out, 2, false, map[string][]bs{"POST": bodiesOf(mk, []int{0, 3}), "PUT": {{"bytes.Reader", 3}, {"section@1", 3}}}, []int{0, 1})
+		deepKinds := append([]string{"bytes.Reader", "strings.Reader@1", "bytes.Buffer@1", "os.File", "readseeker", "io.Reader"}, seekKinds...)
+		modelProduct(&out, 1, true, map[string][]bs{"POST": bodiesOf(deepKinds, []int{3})[1:]}, []int{2})
+		modelProduct(&out, 0, false, map[string][]bs{"POST": {{"bytes.Reader", 3}, {"bytes.Buffer", 3}, {"section@1", 3}, {"file-noclose", 3}, {"rsc@1", 3}}}, []int{3})
 	} else {
-		kinds = append(kinds, "os.File@1")
+		kinds = append(kinds, seekKinds...)
 		conns := []string{"fresh", "keepalive", "warm"}
 		all := map[string][]bs{
 			"POST": bodiesOf(kinds, []int{0, 1, 3, 70000}),
-			"GET":  {{"none", 0}, {"bytes.Reader", 3}, {"io.Reader", 3}, {"bytes.Buffer", 70000}, {"readseeker", 3}},
-			"PUT":  {{"bytes.Reader", 3}, {"os.File", 3}, {"io.Reader", 70000}},
+			"GET":  {{"none", 0}, {"bytes.Reader", 3}, {"io.Reader", 3}, {"bytes.Buffer", 70000}, {"readseeker", 3}, {"section@1", 3}},
+			"PUT":  {{"bytes.Reader", 3}, {"os.File", 3}, {"io.Reader", 70000}, {"file-noclose@1", 3}},
 		}
+		all["POST"] = append(all["POST"], bodiesOf(offsetGetBodyKinds, []int{3})[1:]...)
+		all["POST"] = append(all["POST"], bs{"bytes.Reader@1", 70000})
 		product(&out, true, all, conns, []int{-1, 0, 1}, variants)
 		three := map[string][]bs{
 			"POST": bodiesOf(kinds, []int{3}),
@@ -965,6 +1392,7 @@ func configs(thorough bool) []item {
 		}
 		two := []string{"fresh", "keepalive"}
 		product(&out, true, three, conns, []int{2}, variants)
+		product(&out, true, map[string][]bs{"POST": bodiesOf(offsetGetBodyKinds, []int{3})[1:]}, two, []int{2}, []string{"default"})
 		product(&out, false, rest, two, []int{2}, variants)
 		deep := map[string][]bs{
 			"POST": {{"none", 0}, {"bytes.Reader", 3}, {"bytes.Buffer", 3}, {"os.File", 3}, {"readseeker", 3}, {"io.Reader", 3}},
@@ -974,6 +1402,22 @@ func configs(thorough bool) []item {
 		product(&out, false, deep, two, []int{3}, []string{"default"})
 		product(&out, false, map[string][]bs{"POST": {{"bytes.Reader", 3}}, "GET": {{"none", 0}}}, []string{"warm"}, []int{3}, []string{"default"})
 		product(&out, false, map[string][]bs{"POST": {{"bytes.Reader", 3}, {"io.Reader", 3}}}, []string{"fresh"}, []int{3}, []string{"accept503", "extra400"})
+		// model transport
+		mk := append(append([]string{}, kinds...), offsetGetBodyKinds...)
+		modelProduct(&out, 3, false, map[string][]bs{
+			"POST": bodiesOf(mk, []int{0, 1, 3, 5}),
+			"PUT":  bodiesOf(mk, []int{3}),
+			"GET":  {{"none", 0}, {"bytes.Reader", 3}, {"section@1", 3}, {"io.Reader", 3}},
+		}, []int{-1, 0, 1})
+		nonGet := append([]string{"os.File", "readseeker", "io.Reader"}, seekKinds...)
+		modelProduct(&out, 3, true, map[string][]bs{"POST": bodiesOf(nonGet, []int{3})}, []int{2})
+		modelProduct(&out, 2, true, map[string][]bs{"POST": {{"bytes.Reader", 3}}}, []int{2})
+		modelProduct(&out, 1, true, map[string][]bs{
+			"POST": append(bodiesOf(append([]string{"bytes.Reader", "strings.Reader@1", "bytes.Buffer@1"}, nonGet...), []int{5})[1:],
+				bs{"strings.Reader", 3}, bs{"bytes.Buffer", 3}, bs{"bytes.Reader@1", 3}, bs{"strings.Reader@1", 3}, bs{"bytes.Buffer@1", 3}),
+			"PUT": {{"bytes.Reader", 3}, {"readseeker@1", 3}},
+		}, []int{2})
+		modelProduct(&out, 0, false, map[string][]bs{"POST": bodiesOf(mk, []int{3})[1:]}, []int{3})
 	}
 	// biggest trees first for better load balance
 	sort.SliceStable(out, func(i, j int) bool {
@@ -1005,6 +1449,11 @@ func replay(run *evid.Run, path string) {
 	}
 	defer w.close()
 	c := Case{Config: f.Case.Config, Script: f.Case.Script}
+	if pf := os.Getenv("C34_PROF"); pf != "" {
+		f, _ := os.Create(pf)
+		pprof.StartCPUProfile(f)
+		defer pprof.StopCPUProfile()
+	}
 	if n, _ := strconv.Atoi(os.Getenv("C34_REPEAT")); n > 0 {
 		// determinism probe: the same case n times on 8 workers, observation summaries counted
 		var mu sync.Mutex
@@ -1038,6 +1487,7 @@ func replay(run *evid.Run, path string) {
 		for k, v := range seen {
 			fmt.Printf("%6d x %s\n", v, k)
 		}
+		pprof.StopCPUProfile()
 	}
 	o, err := w.exec(c)
 	if err != nil {
@@ -1058,12 +1508,16 @@ func replay(run *evid.Run, path string) {
 }
 
 func main() {
+	debug.SetGCPercent(800) // live heap is a few MB; the model-transport part allocates ~10 kB per execution
 	run := evid.New("C34", "exploration")
-	run.Rule = "For every configuration (method x body kind x size x connection mode {fresh, keep-alive, warm pooled} x retry limit x accepted/extra-retry code variant; plain nested loops, full product of the listed domains) the tree of server answers is enumerated exhaustively and lazily depth-first by the check's own loop (equivalent to vrt.Choose in sequential mode): a script of answers is extended by EVERY symbol of the alphabet {drop after reading the whole body, drop after reading k body bytes (every k<N for N<=4), 429/502/503/504/extra-code/500 with empty and non-empty response bodies, 200, 404} exactly when the real Send (real net/http transport, loopback httptest server) asked the server for one more answer. Oracle per execution: every request the server received has the original method/URI/headers/complete body; every Send-level attempt (RoundTrip) reached the server; nil error only for an answered attempt with the complete body; no request after an accepted answer; attempts <= 1+retry limit and none after the backoff said Stop. distinct = distinct (configuration, script) leaves in which Send actually retried."
-	run.Assume("zero back-off (cenkalti ZeroBackOff / constant 0) so no wall-clock is involved; the client timeout (30 s) never fires (a timeout is a harness error)")
-	run.Assume("the server reads the request body (or the chosen k-byte prefix) before it answers or drops, so what the client managed to write is determined by the script, not by a race; for 70 kB bodies a mid-body drop leaves a racy remainder in non-rewindable readers, which only affects how incomplete a retry is, not whether it is")
+	run.Rule = "Part A (real transport). For every configuration (method x body kind x size x connection mode {fresh, keep-alive, warm pooled} x retry limit x accepted/extra-retry code variant; plain nested loops, full product of the listed domains) the tree of server answers is enumerated exhaustively and lazily depth-first by the check's own loop (equivalent to vrt.Choose in sequential mode): a script of answers is extended by EVERY symbol of the alphabet {drop after reading the whole body, drop after reading k body bytes (every k<N for N<=4), 429/502/503/504/extra-code/500 with empty and non-empty response bodies, 200, 404} exactly when the real Send (real net/http transport, loopback httptest server) asked the server for one more answer. Body kinds: none | bytes.Reader, strings.Reader, bytes.Buffer (GetBody) | io.Reader | ReadSeeker without Close | *io.SectionReader over a section starting at offset 1 of its ReaderAt | *os.File | struct{io.ReadSeeker}{*os.File} (Close hidden) | ReadSeeker with a Close that leaves it usable -- each handed over at offset 0 and at offset 1 of its underlying data (original body = what the reader yields from its position when Send is called). " +
+		"Part B (model transport). The same body kinds x sizes x retry limits run through the real Send and the real http.Client over a scripted RoundTripper; its answer tree is enumerated the same way over the alphabet {200, 404, 503 (+429/502/504/500 in thorough), network error: after reading the body to EOF and closing it} + {503, network error: delivered when only k body bytes have been read (k in {0,1,N}; every k<=N in thorough); the body then stays with that attempt's write loop (RoundTripper contract: the body may be read and closed after RoundTrip returned), which reads j in {0,1,up to EOF} more bytes and closes it at point p in {B: when Send asks the backoff, R: when the next RoundTrip starts, M: after the next attempt has read its first body byte}}; deeper retry limits use the stated sub-alphabets (level 1: j in {1,EOF}, p in {R,M}; level 0: additionally k=1 only). " +
+		"Oracle per execution (both parts): every request received has the original method/URI/headers/complete body (for an attempt answered after k bytes: those k bytes are the original's first k); every Send-level attempt (RoundTrip) reached the server; nil error only for an answered attempt with the complete body; no request after an accepted answer; attempts <= 1+retry limit and none after the backoff said Stop. distinct = distinct (configuration, script) leaves in which Send actually retried."
+	run.Assume("zero back-off (cenkalti ZeroBackOff / constant 0) so no wall-clock is involved; the client timeout (30 s) never fires (a timeout is a harness error); part B uses SendTimeout(0) (nothing can block in the model transport, and no per-attempt timer goroutines are left behind)")
+	run.Assume("part A: the server reads the request body (or the chosen k-byte prefix) before it answers or drops, so what the client managed to write is determined by the script, not by a race, and the real Transport is done with the body when RoundTrip returns; for 70 kB bodies a mid-body drop leaves a racy remainder in non-rewindable readers, which only affects how incomplete a retry is, not whether it is")
+	run.Assume("part B: the model RoundTripper models the http.RoundTripper contract, not net/http's Transport internals; a lingering write loop finishes (reads, then closes) at the latest during the next attempt; early answers are never accepted statuses (whether an accepted answer to a partially read body is a success is not decided by the statement); response bodies are empty")
 	run.Assume("http->https fallback (SendTLS) and redirects are out of scope; a status that is both accepted and configured as an extra retry code is a contradictory configuration and is left out of the alphabet")
-	run.Assume("small-scope: body sizes {0,1,3,70000}, retry limits <= 3, one extra retry code (400)")
+	run.Assume("small-scope: body sizes {0,1,3,70000} (part B {0,1,3,5}), hand-over offsets {0,1}, retry limits <= 3, one extra retry code (400)")
 	if p := run.ReplayPath(); p != "" {
 		replay(run, p)
 		return
@@ -1093,9 +1547,15 @@ func main() {
 				if firstErr.Load() != nil {
 					continue
 				}
-				if err := w.explore(run, st, it.cfg, it.rich, deadline); err != nil {
+				t0 := time.Now()
+				if err := w.explore(run, st, it, deadline); err != nil {
 					firstErr.CompareAndSwap(nil, &err)
 				}
+				part := "worker_ms_part_A_real_transport"
+				if it.cfg.Conn == "model" {
+					part = "worker_ms_part_B_model_transport"
+				}
+				st.add(part, time.Since(t0).Milliseconds())
 			}
 		}()
 	}
@@ -1108,12 +1568,18 @@ func main() {
 		run.Fatal(*e)
 	}
 	st.flush(run)
-	run.Set("configurations", len(cfgs))
+	distinctCfg := map[Config]bool{}
+	for _, it := range cfgs {
+		distinctCfg[it.cfg] = true
+	}
+	run.Set("configurations", len(distinctCfg))
+	run.Set("work_items", len(cfgs))
 	for k, v := range st.counters {
 		run.Set(k, v)
 	}
 	if run.NViolations() == 0 {
-		for _, k := range []string{"cases_with_retry", "cases_success_after_retry", "cases_backoff_exhausted", "retries_with_complete_nonempty_body"} {
+		for _, k := range []string{"cases_with_retry", "cases_success_after_retry", "cases_backoff_exhausted", "retries_with_complete_nonempty_body",
+			"cases_with_retry_body_handed_over_at_offset", "model_cases_retry_while_transport_held_previous_body", "model_cases_complete_nonempty_retry_while_transport_held_previous_body"} {
 			if st.counters[k] == 0 {
 				run.Fatal(errors.New("vacuous: counter " + k + " is zero"))
 			}
